@@ -68,7 +68,12 @@ LEVEL_TEXT = (
     "pairs in order. In the container modules `with contextlib.suppress(E): body` is read by every clause as try: body / except E: pass. "
     "It decides the other clauses on all paths, not conformance of every read "
     "with the abstract model after every history; generator bodies of callees and implicit exceptions are not "
-    "followed; for R8.7 a scan spelled as a comprehension / generator expression / next() / any() is complete by "
+    "followed; for R8.7 a scan split into parts (first, *rest = self.dicts; self.dicts[0] + self.dicts[1:]; two halves; the parts joined "
+    "again) is judged per function on the intervals of list positions the parts stand for, in the order they are used: chaining from "
+    "the first to the last position without gap / overlap / inversion = the full ordered scan, otherwise a violation; bounds are compared "
+    "as text, a part of a part, a part handed to a helper and a single dict read by position after a scanned part (*init, last) end in "
+    "ANALYSIS-ERROR; an iterator advanced with next() before the loop counts as the whole scan; "
+    "for R8.7 a scan spelled as a comprehension / generator expression / next() / any() is complete by "
     "construction and what is then done with its result (e.g. consulting only the first dict that has the key) is not "
     "decided, nor is which value of a wrapped dict is read or whether the reads of one wrapped dict are complete (the list "
     "handed whole to a call, f(*self.dicts), counts as a read of every wrapped dict unless it is sliced / reordered first), "
